@@ -111,7 +111,14 @@ struct Gen
             if (r.chance(0.5)) g += " winc " + std::to_string(r.below(uint64_t(tmax_ms) + 1)) + " binc " + std::to_string(r.below(uint64_t(tmax_ms) + 1));
             if (r.chance(0.4)) g += " movestogo " + std::to_string(r.range(1, 60));
         }
-        else if (k < 96) g += "";  // bare go: depth 7
+        else if (k < 94) g += "";  // bare go: depth 7
+        else if (k < 98)
+        {
+            // a depth limit together with a time or clock limit: the depth limit still binds
+            g += " depth " + std::to_string(r.range(1, std::min(max_depth, 5)));
+            if (r.chance(0.5)) g += " movetime " + std::to_string(std::max<int64_t>(1, r.logrange(1, 50 * tmax_ms)));
+            else g += " wtime " + std::to_string(r.logrange(1, 1000 * tmax_ms)) + " btime " + std::to_string(r.logrange(1, 1000 * tmax_ms));
+        }
         else
         {
             // zero clocks: falls through to the default depth
@@ -157,6 +164,7 @@ struct Gen
             else { o.trig = TRIG_INFO; o.k = r.range(1, 5); }
             break;
         case 6: o.trig = TRIG_POINT; o.point = PT_GO_BEFORE_BESTMOVE; o.k = 1; break;
+        case 8: o.trig = TRIG_POINT; o.point = PT_CLOCK; o.k = r.range(1, 8); break;  // W7: inside the k-th clock read
         default: o.trig = TRIG_SIMTIME; o.k = r.logrange(1, 200000); break;
         }
         return o;
@@ -164,7 +172,7 @@ struct Gen
 
     int draw_window()
     {
-        static const int w[] = {0, 0, 0, 1, 1, 2, 2, 3, 3, 4, 4, 4, 4, 4, 4, 5, 5, 6, 7, 7};
+        static const int w[] = {0, 0, 0, 1, 1, 2, 2, 3, 3, 4, 4, 4, 4, 4, 4, 5, 5, 6, 7, 7, 8, 8, 8};
         return w[r.below(sizeof w / sizeof w[0])];
     }
 
@@ -258,15 +266,33 @@ Script gen_c06(uint64_t seed, const std::string& tier, Rng& r)
     g.common_cfg("C06");
     s.cfg.xsputn_preempt = r.chance(0.5);
     int rounds = int(r.range(1, 3));
+    bool back_to_back = r.chance(0.25);
+    if (back_to_back) s.cfg.await_task_end = false;
     for (int i = 0; i < rounds; ++i)
     {
         g.set_position(gen_position(r, 60, 0));
+        if (back_to_back)
+        {
+            // a search that ends by itself, and the next request sent as soon as its bestmove line is out
+            // (the old search thread may still be running its last statements)
+            s.ops.push_back(send("go depth " + std::to_string(r.range(1, 3))));
+            s.ops.push_back(simple(OP_AWAIT_BEST));
+            g.set_position(gen_position(r, 60, 0), false);
+        }
         int window = g.draw_window();
+        if (back_to_back && window == 0 && r.chance(0.7)) window = 4;
         bool hold = r.chance(0.7);
         std::string go = g.unbounded_go();
         if (window == 6) go = "go depth " + std::to_string(r.range(1, 3));
         Op goop = send(go);
-        if (r.chance(0.3)) goop.faults = g.search_faults(false, 50000);
+        if (r.chance(0.3) || window == 8) goop.faults = g.search_faults(false, 50000);
+        if (window == 8 && r.chance(0.8))
+        {
+            Fault x;
+            x.kind = F_POLL_PHASE;
+            x.a = r.range(1, 64);
+            goop.faults.push_back(x);
+        }
         s.ops.push_back(goop);
         int ready_mode = int(r.below(4));  // 0 none, 1 isready before stop (awaited), 2 isready right before stop (not awaited first), 3 after
         if (ready_mode == 1 && window != 0)
@@ -594,6 +620,57 @@ Script gen_c08(uint64_t seed, const std::string& tier, Rng& r)
         p.game = ref::Game(ref::Board(p.start_fen));
         if (k >= 25 && r.chance(0.5)) playout(p.game, r, int(r.logrange(1, 200)), 0.2);
         g.set_position(p);
+        if (r.chance(0.35))
+        {
+            // an interrupted search (node budget, early stop or time expiry) leaves whatever it stored on the way out;
+            // complete searches of the same position at growing depth then meet those entries
+            uint64_t how = r.below(3);
+            if (how == 0)
+            {
+                s.ops.push_back(send("go nodes " + std::to_string(r.logrange(1, 3000))));
+                Fault x;
+                x.kind = F_POLL_PHASE;
+                x.a = r.logrange(1, 3000);
+                s.ops.back().faults.push_back(x);
+            }
+            else if (how == 1)
+            {
+                s.ops.push_back(send("go depth " + std::to_string(r.range(3, 8))));
+                Op st = send("stop");
+                st.trig = TRIG_POINT;
+                st.point = PT_NODE;
+                st.k = r.logrange(1, 5000);
+                st.hold = r.chance(0.5);
+                s.ops.push_back(st);
+            }
+            else
+            {
+                s.ops.push_back(send("go movetime 1"));
+                Fault x;
+                x.kind = F_POLL_PHASE;
+                x.a = r.logrange(1, 3000);
+                s.ops.back().faults.push_back(x);
+            }
+            s.ops.push_back(simple(OP_AWAIT_BEST));
+            int upto = int(r.range(2, 6));
+            for (int d = 1; d <= upto; ++d)
+            {
+                if (r.chance(0.8)) s.ops.push_back(send(p.command()));
+                s.ops.push_back(send("go depth " + std::to_string(d)));
+                s.ops.push_back(simple(OP_AWAIT_BEST));
+            }
+            continue;
+        }
+        if (r.chance(0.2))
+        {
+            // a restricted search first, then an unrestricted one of the same position (with and without a position command between)
+            s.ops.push_back(send("go depth " + std::to_string(r.range(1, 5)) + g.searchmoves_clause(0.5)));
+            s.ops.push_back(simple(OP_AWAIT_BEST));
+            if (r.chance(0.5)) s.ops.push_back(send(p.command()));
+            s.ops.push_back(send("go depth " + std::to_string(r.range(1, 5))));
+            s.ops.push_back(simple(OP_AWAIT_BEST));
+            continue;
+        }
         // search, move on a ply or two, search, come back at another depth
         int d1 = int(r.range(1, 6));
         s.ops.push_back(send("go depth " + std::to_string(d1)));
@@ -636,7 +713,8 @@ Script gen_c14(uint64_t seed, const std::string& tier, Rng& r)
         {
             std::string fen;
             uint64_t k = r.below(10);
-            if (k < 3) fen = gen_sparse_fen(r, 0, 6, false);  // pawnless, incl. nine-queen style via many extras
+            if (k < 1) fen = gen_heavy_fen(r);                // lone king against up to nine queens and all officers
+            else if (k < 3) fen = gen_sparse_fen(r, 0, 6, false);  // pawnless
             else if (k < 5 && !seen.empty()) fen = seen[r.below(seen.size())];
             else if (k < 7) fen = gen_sparse_fen(r, 1, 7, true);
             else if (k < 8) fen = curated_fens()[r.below(curated_fens().size())];
@@ -715,8 +793,22 @@ Script gen_c10(uint64_t seed, const std::string& tier, Rng& r)
         p.start_fen = tiny[r.below(4)];
         p.game = ref::Game(ref::Board(p.start_fen));
         g.set_position(p);
-        s.ops.push_back(send("go depth " + std::to_string(r.range(38, 100))));
-        s.ops.push_back(simple(OP_AWAIT_BEST));
+        if (r.chance(0.5))
+        {
+            s.ops.push_back(send("go depth " + std::to_string(r.range(38, 100))));
+            s.ops.push_back(simple(OP_AWAIT_BEST));
+        }
+        else
+        {
+            // an unbounded search that is left alone for more iterations than the engine's per-depth arrays hold
+            s.ops.push_back(send(r.chance(0.5) ? "go infinite" : "go movetime 10000000"));
+            Op st = send("stop");
+            st.trig = TRIG_POINT;
+            st.point = PT_ITER_DONE;
+            st.k = r.range(39, 90);
+            s.ops.push_back(st);
+            s.ops.push_back(simple(OP_AWAIT_BEST));
+        }
     }
     else if (shape < 65)
     {
